@@ -222,6 +222,12 @@ class J1939_21:
                             if should_break:
                                 break
 
+                        if (buf['state'] == self.SendBufferState.SENDING_IN_CTS) and (buf['next_packet_to_send'] >= buf['num_packages']):
+                            # nothing (more) to send for this CTS: wait for the EndOfMsgACK
+                            # instead of staying due with a deadline in the past
+                            buf['state'] = self.SendBufferState.WAITING_CTS
+                            buf['deadline'] = time.time() + self.Timeout.T3
+
                         # recalc next wakeup
                         if next_wakeup > buf['deadline']:
                             next_wakeup = buf['deadline']
